@@ -1,7 +1,7 @@
 """C08 — TLV models encode to exact, minimal TLV and decode back (structural part). DESIGN §4 C08."""
 import ast
 
-from .common import ctx, returns, calls_in_ctx, reach_from_succ, site, srcs_text, stale_measures
+from .common import ctx, returns, calls_in_ctx, reach_from_succ, site, srcs_text, stale_measures, orient
 from ..flow import callee_attr
 from ..linexpr import show, NotLinear
 from ..loader import AnalysisError, norm
@@ -93,7 +93,7 @@ def size_rules(R, prefix):
                     return {k: v for k, v in out.items() if v}
                 return d
             ra, rb = fold(a.ret or {}), fold(b.ret or {})
-            adv = fold(b.offset or {})
+            adv = fold(getattr(b, 'written', None) or b.offset or {})
             if ra != rb:
                 R.fail(prefix + '.SIZ.1b', inst, qe, 'def encode_into', f'{cls}: encoded_length announces `{show(ra)}` but encode_into reports `{show(rb)}`',
                        fe.loc())
@@ -268,7 +268,9 @@ def run(R):
     # fixed_len overflow raises; marker of the chosen width is what encode_into reads
     ue = ctx(R, TM + '.UintField.encoded_length')
     inst = ue.qual + ' :: value must fit the chosen width'
-    ovf = [t for t in ue.cfg.nodes if t.kind == 'test' and ast.unparse(t.ast) in ('val >= 256 ** ret', 'val >= 0x100 ** ret', 'val >= 2 ** (8 * ret)', 'val >= 1 << 8 * ret')]
+    ovf = [t for t in ue.cfg.nodes if t.kind == 'test' and orient(t.ast, lambda e: isinstance(e, ast.Name) and e.id == 'val') is not None
+           and ast.unparse(orient(t.ast, lambda e: isinstance(e, ast.Name) and e.id == 'val')) in (
+               'val >= 256 ** ret', 'val >= 0x100 ** ret', 'val >= 2 ** (8 * ret)', 'val >= 1 << 8 * ret', 'val > 256 ** ret - 1')]
     if ovf and not reach_from_succ(ue.cfg, ovf[0], True, follow_exc=False) - {n.id for n in ue.cfg.nodes if n.kind == 'raise'}:
         R.ok('C08.TBL.2', inst, site(ue, ovf[0].ast))
     else:
